@@ -14,6 +14,7 @@ R11.rt     extract(toMatrix33(angles)).toMatrix33() == toMatrix33(angles) on the
            angle positive), using cos(atan2(y,x)) = x/sqrt(x^2+y^2), sin(atan2(y,x)) = y/sqrt(x^2+y^2)
 """
 import math, struct
+import os
 from fractions import Fraction
 from engine import term as T, agg, build, vg, poly as P, polycheck as PC
 from engine.agg import ELEM, TU
@@ -132,13 +133,105 @@ def check_near(rep, R, t):
         except (P.NotPoly, vg.Unsupported, OverflowError, IndexError) as e:
             rep.ob(oid, 'R11.near', UNDECIDED, repr(e)[:300], where)
 
+def gen_reorder(t, pairs):
+    """the re-ordering constructor Euler(e, order) for ordered pairs (from, to) of orders: matrix of the result"""
+    E = ELEM[t][0]
+    V = 'Vec3<%s>' % E; M3 = 'Matrix33<%s>' % E; Eu = 'Euler<%s>' % E
+    tu = TU('c11r_' + t, header=HDR)
+    for f, o in pairs:
+        tu.add('w_re_%s_%s' % (f, o), '%s& m, const %s& a' % (M3, V), '%s e(a, %s::%s, %s::IJKLayout); %s r(e, %s::%s); m = r.toMatrix33();' % (Eu, Eu, f, Eu, Eu, Eu, o), f=f, o=o, k='re')
+    return tu
+
+def order_bits():
+    """enumerator values of the 24 orders, read from the header of the tree under analysis"""
+    import re
+    txt = open(os.path.join(build.REPO, 'src', 'Imath', 'ImathEuler.h')).read()
+    vals = {m.group(1): int(m.group(2), 16) for m in re.finditer(r'\b([XYZ]{3}r?)\s*=\s*(0x[0-9a-fA-F]+)\s*,', txt)}
+    if not all(o in vals for o in ORDERS): raise vg.Unsupported('Euler::Order enumerators not found in ImathEuler.h')
+    return vals
+
+def reorder_pairs(tier):
+    """thorough: all 576 ordered pairs.  quick: representatives of every class of pairs - which of initial axis, frame and
+    parity agree, and whether source / target repeat the first axis (32 classes) - three per class, one where both repeat
+    (those cost ~15 s each)"""
+    allp = [(f, o) for f in ORDERS for o in ORDERS]
+    if tier != 'quick': return allp
+    v = order_bits()
+    cls = {}
+    for f, o in allp:
+        a, b = v[f], v[o]
+        key = ((a ^ b) & 0x3000 == 0, (a ^ b) & 1 == 0, (a ^ b) & 0x100 == 0, bool(a & 0x10), bool(b & 0x10))
+        cls.setdefault(key, []).append((f, o))
+    out = []
+    for key, ps in sorted(cls.items()):
+        n = 1 if key[3] and key[4] else 3
+        step = max(1, len(ps) // n)
+        out += ps[::step][:n]
+    return out
+
+_RE = {}
+def _re_pair(job):
+    """toMatrix33(Euler(e_from, to)) == toMatrix33(e_from) on the generic cell of the source's middle angle.  Sines and
+    cosines of the three source angles are rational in t_i = tan(angle_i / 2) (middle angle of a non-repeated order measured
+    from pi/2, so that the cell is t_1 > 0 either way): the roots taken by extract() are then roots of syntactic squares."""
+    tname, f, o = job
+    st = _RE[tname]
+    t = st['t']; E, sz, lt = ELEM[t]
+    S, SM = st['R'].get('w_re_%s_%s' % (f, o)), st['RM'].get('w_m33_' + f)
+    oid = 'Euler(Euler(a,%s),%s)<%s>' % (f, o, E)
+    if S is None or SM is None:
+        return (oid, UNDECIDED, (st['R'].err.get('w_re_%s_%s' % (f, o)) or st['RM'].err.get('w_m33_' + f) or 'not analysed')[:300], None)
+    where = fn_where(S.fn)
+    try:
+        ang = [agg.slot_in('a1', i, t) for i in range(3)]
+        re_ = [S.out('a0', i * sz, sz, lt) for i in range(9)]; m3 = [SM.out('a0', i * sz, sz, lt) for i in range(9)]
+        ctx = P.Ctx(); ctx.cancel = True
+        install_atan2_rules(ctx)
+        orig = ctx.call
+        tk = [ctx.key(T.inp('t#%d' % i, 0, sz, lt)) for i in range(3)]
+        rep_from = len(set(f[:3])) == 2
+        ctx.positive.add(tk[1])
+        def call(n):
+            if n.attr in ('cos', 'sin') and len(n.args) == 1:
+                for i in range(3):
+                    if n.args[0] is ang[i]:
+                        tt = P.patom(tk[i]); one = P.pconst(1)
+                        den = P.padd(one, P.pmul(tt, tt)); c_ = P.psub(one, P.pmul(tt, tt)); s_ = P.pscale(tt, 2)
+                        if i == 1 and not rep_from: c_, s_ = s_, c_
+                        return (c_ if n.attr == 'cos' else s_, den)
+            return orig(n)
+        ctx.call = call
+        for i in range(9):
+            a_, b_ = ctx.rat(re_[i]), ctx.rat(m3[i])
+            if not ctx.requal(a_, b_):
+                return (oid, VIOLATED, 'entry [%d][%d] of the re-ordered rotation is %s, the source rotation has %s (t_i = tan(angle_i/2))' % (i // 3, i % 3, P.show_rat(a_, ctx)[:140], P.show_rat(b_, ctx)[:140]), where)
+        return (oid, HOLDS, 'the re-ordered angles give the source rotation on the generic cell', where)
+    except (P.NotPoly, PC.Undecided, vg.Unsupported, OverflowError) as e:
+        return (oid, UNDECIDED, repr(e)[:300], where)
+
+def check_reorder(rep, R, RM, t, pairs):
+    import multiprocessing
+    _RE[t] = dict(t=t, R=R, RM=RM)
+    jobs = [(t, f, o) for f, o in pairs]
+    # heavy (repeated -> repeated) pairs first so that the pool drains evenly
+    jobs.sort(key=lambda j: -(len(set(j[1][:3])) == 2 and len(set(j[2][:3])) == 2))
+    with multiprocessing.get_context('fork').Pool(build.JOBS) as pool:
+        res = pool.map(_re_pair, jobs, chunksize=1)
+    for oid, st, msg, where in res:
+        rep.ob(oid, 'R11.re', st, msg, where, nontrivial=True)
+
 def main(rep, ws, tier):
     types = 'f' if tier == 'quick' else 'fd'
     orders = ORDERS
     tus = [gen(t, orders) for t in types]; tun = [gen_near(t) for t in types]
-    an = Analysed(ws, tus + tun, rep)
+    pairs = reorder_pairs(tier)
+    tur = [gen_reorder(t, pairs) for t in types]
+    an = Analysed(ws, tus + tun + tur, rep)
     for tn, t in zip(tun, types):
         check_near(rep, an[tn], t)
+    for tr, tu, t in zip(tur, tus, types):
+        check_reorder(rep, an[tr], an[tu], t, pairs)
+    rep.floor('re-ordering constructor pairs', sum(1 for o in rep.obs if o['rule'] == 'R11.re'), len(pairs) * len(types))
     for tu, t in zip(tus, types):
         R = an[tu]; E, sz, lt = ELEM[t]
         def S_(name):
@@ -232,7 +325,7 @@ def main(rep, ws, tier):
     rep.extra['orders_enumerated'] = len(ORDERS)
     rep.extra['exhaustive_over_orders'] = True
     rep.assumptions += ['exact real arithmetic; sin/cos atoms with sin^2+cos^2 = 1', 'R11.rt: generic cell with cos(middle angle) > 0 (repeated-axis orders: sin(middle angle) > 0)']
-    rep.undecided_clauses += ['extract at and near gimbal lock, and the alternate-solution cell (cos of the middle angle negative)', 'makeNear / nearestRotation "within pi" claims', 'the re-ordering constructor and extractEuler* helpers']
+    rep.undecided_clauses += ['extract at and near gimbal lock, and the alternate-solution cell (cos of the middle angle negative)', 'makeNear / nearestRotation "within pi" claims', 'extractEuler* helpers']
 
 def roundtrip(SM, SX, o, t, ang):
     """toMatrix33(extract(toMatrix33(a))) == toMatrix33(a) with atan2 rules, on the generic cell"""
